@@ -15,7 +15,7 @@ ca[f"flavour_{tag}"] = {k: cb.get(k) for k in ("evaluations", "distinct_nontrivi
 ca["samples"] = ca.get("samples", []) + cb.get("samples", [])[:3]
 a["violations"] = a.get("violations", 0) + b.get("violations", 0)
 a["wall_s"] = round(a["wall_s"] + b["wall_s"], 2)
-kind = {"rustls": "rustls TLS backend", "nocompress": "no gzip/deflate support, no TLS", "plain": "release profile without debug assertions and overflow checks", "zlib": "feature set compress-zlib (system zlib behind flate2) instead of compress, no TLS"}.get(tag, tag)
+kind = {"rustls": "rustls TLS backend", "nocompress": "no gzip/deflate support, no TLS", "plain": "release profile without debug assertions and overflow checks", "rustlsnative": "rustls with the platform trust store (tls-rustls-native-roots), run with an EMPTY store", "zlib": "feature set compress-zlib (system zlib behind flate2) instead of compress, no TLS"}.get(tag, tag)
 a.setdefault("assumptions", []).append(f"second pass with the {tag} flavour of the harness (same workload, other build of the library: {kind}) merged into this file")
 json.dump(a, open(main, "w"), indent=2)
 os.remove(extra)
